@@ -2,7 +2,7 @@
 From IV Require Import Base.Bytes Model.StoreSpec Model.Rest Proofs.Rest.
 Theorem handler_total :
   (forall mb rid num a r, ans_wf a = true -> In r (lookup_resps mb rid num a) -> fst r <> SPanic) /\
-  (forall mfa cfg base st rq, fst (snd (serve mfa cfg base st rq)) <> SPanic) /\
-  (forall mfa cfg base cbase ops st p, ~ In (OResp (SPanic, p)) (hrun mfa cfg base cbase st ops)).
+  (forall mfa cfg srcok base st rq, fst (snd (serve mfa cfg srcok base st rq)) <> SPanic) /\
+  (forall mfa cfg srcok base cbase ops st p, ~ In (OResp (SPanic, p)) (hrun mfa cfg srcok base cbase st ops)).
 Proof. split; [exact lookup_no_panic|split; [exact serve_no_panic|exact hrun_no_panic]]. Qed.
 Print Assumptions handler_total.
